@@ -20,6 +20,58 @@ fn queries(rng: &mut Rng, lengths: &[f64]) -> Vec<f64> {
     q
 }
 
+/// cumulative-length table of a curve against its own stored vertices
+fn table_clauses(v: &mut Verdict, ls: &[f64], edges: &[f64], how: &str) {
+    let lt = *ls.last().unwrap();
+    let scale = 1.0 + lt;
+    v.require(ls.len() == edges.len() + 1, "lengths.count", || how.into());
+    v.require(ls[0] == 0.0, "lengths.start_at_zero", || format!("{how}: {}", ls[0]));
+    v.require(ls.windows(2).all(|w| w[0] <= w[1]), "lengths.non_decreasing", || how.into());
+    let sum: f64 = edges.iter().sum();
+    v.require((lt - sum).abs() <= 1e-9 * scale, "lengths.end_at_sum_of_edges", || format!("{how}: {lt} vs {sum}"));
+    for (k, e) in edges.iter().enumerate() {
+        if k + 1 < ls.len() {
+            v.require(((ls[k + 1] - ls[k]) - e).abs() <= 1e-9 * scale, "lengths.each_step_is_the_edge_length", || format!("{how}: edge {k}: table {:e} edge {e:e}", ls[k + 1] - ls[k]));
+        }
+    }
+}
+
+/// a curve the library itself derives from `c` (or `c` unchanged)
+fn derive2(rng: &mut Rng, c: Curve2) -> (Curve2, &'static str) {
+    let l = c.length();
+    match rng.below(8) {
+        0 => (c.reversed(), "reversed"),
+        1 => {
+            let t = engeom::Iso2::new(engeom::Vector2::new(rng.range(-5.0, 5.0), rng.range(-5.0, 5.0)), rng.range(-3.2, 3.2));
+            (c.transformed_by(&t), "transformed_by")
+        }
+        2 => (c.reversed().reversed(), "reversed_twice"),
+        3 if c.count() >= 3 => (c.simplify(l * 1e-3), "simplify"),
+        4 if l > 1e-3 => match c.between_lengths(l * rng.range(0.05, 0.45), l * rng.range(0.55, 0.95)) {
+            Some(p) if p.count() >= 2 => (p, "between_lengths"),
+            _ => (c, "from_points"),
+        },
+        5 if !c.is_closed() && l > 1e-3 => match guarded(|| c.resample(engeom::common::Resample::ByCount(7))) {
+            Ok(Ok(r)) => (r, "resample"),
+            _ => (c, "from_points"),
+        },
+        _ => (c, "from_points"),
+    }
+}
+
+fn derive3(rng: &mut Rng, c: Curve3) -> (Curve3, &'static str) {
+    let l = c.length();
+    match rng.below(6) {
+        0 => (c.transformed_by(&gen::iso3(rng, 5.0)), "transformed_by"),
+        1 if c.count() >= 3 => (c.simplify(l * 1e-3), "simplify"),
+        2 if l > 1e-3 => match guarded(|| c.resample(engeom::common::Resample::ByCount(7))) {
+            Ok(r) if r.count() >= 2 => (r, "resample"),
+            _ => (c, "from_points"),
+        },
+        _ => (c, "from_points"),
+    }
+}
+
 fn check2(rng: &mut Rng) {
     let (pts, fc) = gen::curve2_points(rng);
     let tol = *rng.pick(&[1e-6, 1e-8, 1e-4, 1e-10]);
@@ -63,6 +115,20 @@ fn check2(rng: &mut Rng) {
     curve2_out(&mut o, &c);
     emit("curve.from_points", &i, &o, &v);
 
+    // "every polyline curve": also the curves the library derives from other curves
+    let (c, how) = derive2(rng, c);
+    let n = c.count();
+    let ls = c.lengths().clone();
+    let lt = c.length();
+    let scale = 1.0 + lt;
+    {
+        let mut v = Verdict::new();
+        table_clauses(&mut v, &ls, &(0..n - 1).map(|k| (c.vtx(k + 1) - c.vtx(k)).norm()).collect::<Vec<_>>(), how);
+        let mut i = Tok::new();
+        i.w(how);
+        emit_oracle_only("curve.derived_lengths", &i, &Tok::new(), &v);
+    }
+
     let strict = strictly_increasing(&ls);
     for l in queries(rng, &ls) {
         let st = c.at_length(l);
@@ -84,6 +150,9 @@ fn check2(rng: &mut Rng) {
                     let lerp = c.vtx(k) + (c.vtx(k + 1) - c.vtx(k)) * fr;
                     v.require((lerp - s.point()).norm() <= 1e-9 * scale, "station.index_fraction_reproduce_point", || format!("l={l:e} k={k} f={fr} {:?} vs {:?}", lerp, s.point()));
                     v.require((s.length_along() - l).abs() <= 1e-9 * scale, "station.length_along_equals_l", || format!("l={l:e} got {:e}", s.length_along()));
+                    // ... and l is the arc length actually travelled along the stored vertices
+                    let arc: f64 = (0..k).map(|j| (c.vtx(j + 1) - c.vtx(j)).norm()).sum::<f64>() + (s.point() - c.vtx(k)).norm();
+                    v.require((arc - l).abs() <= 1e-9 * scale, "station.l_is_arc_length_along_vertices", || format!("{how}: l={l:e} arc {arc:e}"));
                     let d = s.direction();
                     let e = (c.vtx(k + 1) - c.vtx(k)).normalize();
                     let at_vertex = ls.iter().any(|x| *x == l);
@@ -176,6 +245,18 @@ fn check3(rng: &mut Rng) {
     o.w("ok");
     curve3_out(&mut o, &c);
     emit("curve.from_points", &i, &o, &v);
+    let (c, how) = derive3(rng, c);
+    let n = c.count();
+    let ls = c.lengths().to_vec();
+    let lt = c.length();
+    let scale = 1.0 + lt;
+    {
+        let mut v = Verdict::new();
+        table_clauses(&mut v, &ls, &(0..n - 1).map(|k| (c.vtx(k + 1) - c.vtx(k)).norm()).collect::<Vec<_>>(), how);
+        let mut i = Tok::new();
+        i.w(how);
+        emit_oracle_only("curve.derived_lengths", &i, &Tok::new(), &v);
+    }
     let strict = strictly_increasing(&ls);
     for l in queries(rng, &ls) {
         let st = c.at_length(l);
@@ -197,6 +278,8 @@ fn check3(rng: &mut Rng) {
                     let lerp: Point3 = c.vtx(k) + (c.vtx(k + 1) - c.vtx(k)) * fr;
                     v.require((lerp - s.point()).norm() <= 1e-9 * scale, "station.index_fraction_reproduce_point", || format!("l={l:e}"));
                     v.require((s.length_along() - l).abs() <= 1e-9 * scale, "station.length_along_equals_l", || format!("l={l:e} got {:e}", s.length_along()));
+                    let arc: f64 = (0..k).map(|j| (c.vtx(j + 1) - c.vtx(j)).norm()).sum::<f64>() + (s.point() - c.vtx(k)).norm();
+                    v.require((arc - l).abs() <= 1e-9 * scale, "station.l_is_arc_length_along_vertices", || format!("{how}: l={l:e} arc {arc:e}"));
                     let d = s.direction();
                     v.require((d.norm() - 1.0).abs() < 1e-9, "station.direction_unit", || "".into());
                     let at_vertex = ls.iter().any(|x| *x == l);
